@@ -403,7 +403,7 @@ func (c *Conn) reader(ctx context.Context) (_ MessageType, _ io.Reader, err erro
 // msgReader that is reused for every message: a reader whose message has been
 // consumed completely (the next message may only be begun then) must not hand
 // out the bytes of a later message if the caller reads it again, for example
-// to see the io.EOF after an io.ReadFull of the known length.
+// after an io.ReadFull of the known length: it fails.
 type msgReadHandle struct {
 	mr *msgReader
 	// ctx is the context of this message. mr.ctx belongs to whichever message
@@ -470,9 +470,11 @@ func (mr *msgReader) readMessage(h *msgReadHandle, p []byte) (n int, err error) 
 	}
 
 	if h.seq != mr.seq {
-		// The message of this reader was read to its last byte and the next one
-		// has been begun since.
-		return 0, io.EOF
+		// The next message has been begun since: the frames of this reader's message
+		// were consumed to the last byte. That does not mean the caller has been
+		// handed all of it (a decompressor takes in a whole frame at once), so this
+		// is not reported as the end of the message.
+		return 0, errors.New("failed to read: the next message has been begun")
 	}
 
 	mr.reading = true
